@@ -55,24 +55,25 @@ def build_budget(n, d, leaf, strategy, n_distinct, n_repeated, maxmult):
     fast / random: the number of useless splits is random.  Under 'random', for a set of s > leaf points whose
     coordinate-wise maximum is taken by c of them (c <= c* = min(leaf, maxmult)), a full turn of the d axes is
     useless with probability <= exp(-(s-c)/s), so the expected number of splits spent on that set is
-    <= 1 + d*(2 + s/(s-c)) <= 1 + d*(2+G) with G = (leaf+1)/(leaf+1-c).  c = 1 unless the maximum is a repeated
-    point AND s < 2*leaf; a repeated point plays that role for at most leaf-1 nested sets.  Hence
-        E[splits] <= (m-1)*(1 + d*(2+G1)) + d*heavy*(Gc-G1),   m = n_distinct, G1 = (leaf+1)/leaf,
-        Gc = (leaf+1)/(leaf+1-c*), heavy = min(m-1, (leaf-1)*n_repeated).
+    <= 1 + d*(2 + s/(s-c)).  s/(s-c) <= 2 whenever c = 1 or s >= 2*leaf; otherwise (the maximum is a repeated
+    point and s < 2*leaf) it is <= Gc = (leaf+1)/(leaf+1-c*), and a repeated point plays that role for at most
+    leaf-1 nested sets.  Hence, with m = n_distinct and heavy = min(m-1, (leaf-1)*n_repeated),
+        E[splits] <= (m-1)*(1 + 4*d) + d*heavy*max(0, Gc-2).
     Budget: 4x that bound on the mean + 50*d*Gc splits for the tail of a single waiting time: the probability
-    that a terminating 'random' build exceeds it is < 1e-13 for every admissible point set.  Measured: >= 16x the
-    worst of 60000 terminating builds of generated worlds; on hand-made adversarial worlds (groups of `leaf`
-    identical points plus one point that differs on a single axis) >= 7x the worst of 400 seeds, >= 14x the mean.
-    'fast' equals 'balanced' on sets of <= 50 points and samples 50 candidates above; it gets the same budget."""
+    that a terminating 'random' build exceeds it is < 1e-13 for every admissible point set.  Measured margins are
+    in the report / evidence (self-test: props.c11 budget_use): >= 16x the worst of > 10^5 terminating builds of
+    generated worlds; on hand-made adversarial worlds (groups of `leaf` identical points plus one point that
+    differs on a single axis) >= 7x the worst of 400 seeds and >= 14x the mean.
+    'fast' equals 'balanced' on sets of <= 50 points and samples 50 candidates above; it gets the same budget
+    as 'random' (no proof for sets > 50: an alarm there means an astronomically unlikely termination)."""
     m = max(1, n_distinct)
     if strategy == "balanced":
         splits = 200 + 10 * n + 20 * d * m
     else:
         cstar = min(leaf, max(1, maxmult))
-        G1 = (leaf + 1.0) / leaf
         Gc = (leaf + 1.0) / (leaf + 1.0 - cstar)
         heavy = min(m - 1, (leaf - 1) * n_repeated)
-        mean_bound = (m - 1) * (1 + d * (2 + G1)) + d * heavy * (Gc - G1)
+        mean_bound = (m - 1) * (1 + 4 * d) + d * heavy * max(0.0, Gc - 2.0)
         splits = 200 + 10 * n + 4 * mean_bound + 50 * d * Gc
     return int(5000 + STEPS_PER_SPLIT * splits)
 
@@ -307,20 +308,20 @@ class C11(Sim):
             "returned, at least one query compared with brute force")
     FAULT_KINDS = ["prng_handover", "forced_pivot"]
     PROBES = ["leaf_smaller_than_k", "empty_side_after_split", "all_equal_on_axis", "k>=n", "radius_zero",
-              "query_on_data_point", "duplicates", "tie_at_kth", "radius_equals_data_distance", "radius_hair_off_data_distance", "rebuild",
-              "outside_query", "int_points"]
-    QUICK_RUNS = 3000
+              "query_on_data_point", "duplicates", "tie_at_kth", "radius_equals_data_distance",
+              "radius_hair_off_data_distance", "rebuild", "outside_query", "int_points"]
+    QUICK_RUNS = 2500
     THOROUGH_RUNS = 200000
     BLOCK = 20
     ASSUMPTIONS = [
-        "coordinates are finite and moderate: |x| <= 1e6, rounded to <= 3 decimals (squared distances neither "
-        "overflow nor lose all precision); no NaN/inf",
+        "coordinates are finite and moderate: |x| <= 1e6, data rounded to <= 3 decimals, query points to <= 7 "
+        "(squared distances neither overflow nor underflow nor lose all precision); no NaN/inf",
         "n >= 1, 1 <= d <= 5, 1 <= max_leaf_size <= 12, k >= 1 (python int), r >= 0 finite (python float)",
         "point arrays are float64 or int64 ndarrays of shape (n, d); query points are Vec or float64 ndarray of size d",
         "bounded liveness: 'finishes' means within build_budget(n, d, leaf, strategy, #distinct points, #repeated "
-        "points, largest group of identical points) interpreter steps (function entries + loop back-edges inside mouette): >= 10x the "
-        "deterministic worst case (balanced), >= 4x a proven bound on the mean and >= 10x every measured terminating "
-        "build (fast/random)",
+        "points, largest group of identical points) interpreter steps (function entries + loop back-edges inside "
+        "mouette): >= 10x the deterministic worst case (balanced), >= 4x a proven bound on the mean and >= 10x every "
+        "measured terminating build (fast/random)",
         "distances are compared with a slack of 4 ulp; radius membership is not judged inside |d_i - r| <= 4 ulp "
         "(except d_i == 0, which no rounding can produce from distinct finite points)",
     ]
